@@ -425,7 +425,14 @@ def run_discovery(desc, seed, res):
             arg, scanned = (lo, hi), list(range(lo, hi + 1))
         else:
             scanned = r.sample(range(64), r.randint(0, 20))
-            arg = list(scanned)
+            # any iterable of addresses: a list, a set-like, or something that can be walked only once
+            shape = r.choice(["list", "generator", "iter", "tuple3", "dictkeys"])
+            if shape == "tuple3" and len(scanned) == 2:
+                shape = "list"               # a 2-tuple means (start, end)
+            mk_arg = {"list": lambda: list(scanned), "generator": lambda: (a for a in scanned), "iter": lambda: iter(list(scanned)),
+                      "tuple3": lambda: tuple(scanned), "dictkeys": lambda: {a: None for a in scanned}.keys()}[shape]
+            arg = mk_arg()
+            form = "iter:" + shape
         bus = Bus(devs, bound=64 * 70 + 10)
         m = DeviceInstanceTypeMapper()
         res.evaluations += 1
@@ -464,7 +471,8 @@ def run_discovery(desc, seed, res):
                 if idx == pos:
                     hit_cmd["cmd"] = cmd
             try:
-                bus2.run_sequence(m2.autodiscover() if arg is None else m2.autodiscover(arg), fault_at=pos, fault_kind=fk,
+                bus2.run_sequence(m2.autodiscover() if arg is None else m2.autodiscover(mk_arg() if form.startswith("iter:") else arg),
+                                  fault_at=pos, fault_kind=fk,
                                   on_command=on_cmd)
             except DALISequenceError:
                 continue
